@@ -61,7 +61,10 @@ CLAIMED = {
              "score, nothing is lost without truncation. On lattices dumped from the real decoder TLC recomputes the exact "
              "max-plus best path and checks lattice_bestpath's path and score, N-best monotonicity, that every N-best / "
              "best-path word sequence is a start-to-end path of the dumped DAG, and posterior sanity (link and best-path "
-             "posteriors <= 1, forward total = backward total) within the log-add rounding bound.",
+             "posteriors <= 1, forward total = backward total) within the log-add rounding bound. The same predicates are "
+             "evaluated on synthetic lattices: every DAG of the A* model (4 nodes x 3 scores; thorough also 5 nodes x 2 "
+             "scores) is exported from TLC, built as a real lattice with the library's own constructors in place of the "
+             "search's cached lattice, and searched through the public calls.",
         note="Trusted: TLC; recorder (alphas/betas/norm read from public lattice fields, backward total summed by the "
              "harness with logmath_add); tolerance 4 log units per link. No arbitrary DAG can be injected into the C code "
              "through the API, so the real-code side is bound by recorded lattices only.",
